@@ -1,7 +1,7 @@
 //! Line-protocol drivers for C29.   Usage: mdtie events | render | worldsrc
 //!
 //! events:   in  `<hrefs: k\x1dv\x1c k\x1dv ...>\x1e<markdown, newlines as \x1f>`
-//!           out `<abstract events: S<hex dst> | E | C<hex code> | O, space separated>\x1e<html of the REAL finish loop>`
+//!           out `<abstract events: S<hex dst> | E | C<hex code> | O, space separated>\x1e<kind of each Start(Link): inline|autolink|reference>\x1e<html of the REAL finish loop>`
 //!           (the real `Markdown::finish` is run with `src` := markdown and `hrefs` := the map)
 //! render:   in  `<plan: K | W<hex dst>, one per event>\x1e<markdown>`
 //!           out html of pulldown's push_html over the events with the planned wrappers inserted
@@ -80,7 +80,15 @@ fn events(line: &str) -> String {
     let (h, md) = line.split_once('\x1e').unwrap();
     let md = dec(md);
     let mut toks = Vec::new();
+    let mut kinds = Vec::new();
     for ev in Parser::new(&md) {
+        if let Event::Start(Tag::Link { link_type, .. }) = &ev {
+            kinds.push(match link_type {
+                LinkType::Inline => "inline",
+                LinkType::Autolink | LinkType::Email => "autolink",
+                _ => "reference", // Reference, Collapsed, Shortcut and their *Unknown variants
+            });
+        }
         toks.push(match &ev {
             Event::Start(Tag::Link { dest_url, .. }) => format!("S{}", hex(dest_url)),
             Event::End(TagEnd::Link) => "E".to_string(),
@@ -89,7 +97,7 @@ fn events(line: &str) -> String {
         });
     }
     let html = real::finish_on(&md, parse_hrefs(h));
-    format!("{}\x1e{}", toks.join(" "), enc(&html))
+    format!("{}\x1e{}\x1e{}", toks.join(" "), kinds.join(" "), enc(&html))
 }
 
 fn render(line: &str) -> String {
